@@ -43,7 +43,7 @@ pub static mut FREEZE_AT: usize = usize::MAX;
 /// Steps taken after the freeze.
 pub static mut STEPS_FROZEN: usize = 0;
 /// Environment step (harness specific), run before each access in interference mode.
-pub static mut ENV: Option<fn()> = None;
+pub static mut ENV: Option<fn(*const u8, usize)> = None;
 /// Observer for my own writes (harness specific): (addr, size, old, new).
 pub static mut ON_WRITE: Option<fn(*const u8, usize, u64, u64)> = None;
 /// Observer before every access (crash snapshots): (addr, size, is_write).
@@ -61,7 +61,7 @@ fn pre(addr: *const u8, size: usize, write: bool) {
             } else if let Some(env) = ENV {
                 let m = MODE;
                 MODE = Mode::Off;
-                env();
+                env(addr, size);
                 MODE = m;
             }
         }
